@@ -2,6 +2,13 @@ from propsdef import KERNEL, CORR, HARNESS
 
 PROP = {
     "obligations": [
+        "Xt.Props.C11.transcode_faithful",
+        "Xt.Props.C11.valuepath_faithful",
+        "Xt.Props.C18.msgpack_roundtrip",
+        "Xt.Props.C18.decode_depth_irrelevant",
+        "Xt.Props.Json.json_roundtrip",
+        "Xt.Props.Json.json_roundtrip_floats",
+        "Xt.Props.Json.json_spellings_partial",
         "toml_reorder_groups", "toml_reorder_stable", "toml_reorder_keys_perm",
         "toml_reorder_idempotent", "toml_written_eq_reorder_partial", "toml_k4_counterexample",
     ],
